@@ -29,7 +29,7 @@ Definition winstr (i : instr) : bool :=
   match i with
   | ISvcStart _ | IApp _ | IErrTask _ | IWsChk1 _ | IFbh _ | IFbhAfter _ | IFbhLoop _ | IWsChk2 _
   | IWsAppend _ _ | IWsFlush _ | IWsAfter _ | ISvcEnd _ | ISetCwf _ | ISvcPop _ | ISvcTail _
-  | IPull _ | IAddTask _ | IAcqO _ | IAcqR _ | IRelR _ | IWaitO _ | IWake _ _
+  | IPull _ | IAddTask _ | IAcqO _ | IAcqR _ | IRelR _ | IWaitO _ | IWake _ _ | IContPre _ | IContAppend _
   | KFlushExc _ | KRelO _ | KRelR _ | KSvcTry _ | KSvcTry2 _ | KWorkerTop _ => true
   | IFlushStart _ dc | IFlush _ dc => negb dc
   | _ => false
@@ -71,15 +71,17 @@ Lemma exec_winstr : forall g t i a s,
   match exec g t i a s with
   | Blocked => True
   | Norm s' push ls =>
-      tvs s' = tvs s /\ teardown_free ls = true /\ (has_wcont ls = false -> forallb winstr push = true)
+      tvs s' = tvs s /\ teardown_free ls = true /\
+      (has_wcont ls = false \/ wc_close g = false -> forallb winstr push = true)
   | Raise s' x ls => tvs s' = tvs s /\ teardown_free ls = true
   end.
 Proof.
   intros g t i a s Hw.
   destruct i; try discriminate Hw;
   try match goal with dc : bool |- _ => destruct dc; try discriminate Hw end;
-  cbn [exec flush_some write_soon send_continue app]; repeat split_innermost; auto;
+  cbn [exec flush_some write_soon send_continue send_continue_dc app]; repeat split_innermost; auto;
   repeat split; auto; try (intro; discriminate); tv_solve.
+  all: try (intros [Hx|Hx]; [discriminate Hx|rewrite Hx; reflexivity]).
 Qed.
 
 Lemma frame_winstr : forall t k x s,
@@ -199,7 +201,7 @@ Definition SInv (g : cfg) (s : state) : Prop :=
 Definition no_died (tr : list label) : Prop := forall x, ~ In (LLoopDied x) tr.
 
 Definition OInv (g : cfg) (s : state) (tr : list label) : Prop :=
-  no_wcont tr ->
+  no_wcont tr \/ wc_close g = false ->
   SInv g s /\ io_only tr /\ no_died tr /\ forall c, closes c tr = nclose (getc s c).
 
 (* ---- list lemmas ------------------------------------------------------------------------ *)
@@ -484,7 +486,7 @@ Proof.
 Qed.
 
 Lemma worker_step : forall g s c a s' l,
-  SInv g s -> step g s (W c, a) = Some (s', l) -> has_wcont l = false ->
+  SInv g s -> step g s (W c, a) = Some (s', l) -> (has_wcont l = false \/ wc_close g = false) ->
   SInv g s' /\ tvs s' = tvs s /\ teardown_free l = true.
 Proof.
   intros g s c a s' l HS H Hwc.
@@ -807,24 +809,23 @@ Proof.
         unfold step in H. rewrite R, H0 in H. cbn [exec] in H.
         destruct (map_empty s); injection H as <- <-; cbn [app].
         -- refine (io_finish g s s _ A HS _ _ _ _ _); auto.
-           apply ioK_norm; auto. apply LT; auto. eapply covb_tail; eauto.
+           apply ioK_norm; auto; try (apply LT; auto); try (eapply covb_tail; eauto).
         -- rewrite !getth_setc.
-           match goal with |- SInv g (setth ?s1 IO _) => set (s1 := s1) end.
+           match goal with |- SInv g (setth ?sx IO _) => set (s1 := sx) end.
            assert (Et : tvs s1 = tvs s) by apply tvs_poll.
            refine (io_finish g s s1 _ A HS _ _ _ _ _).
            ++ intros d _. split; [apply tvs_getc; auto|auto].
            ++ eapply srv_ok_tvs; eauto.
            ++ intro d. unfold s1. rewrite !getth_setc. reflexivity.
            ++ eapply chan_ok_tv; [apply tvs_getc; eauto|auto].
-           ++ apply ioK_norm; auto.
-              ** apply LSel; auto. intros _. apply asked_open.
-                 --- intros d Hd. destruct (tv_fields _ _ (tvs_getc _ _ d Et)) as (_ & E2 & _ & _ & E5 & _).
-                     rewrite E2 in Hd. rewrite E5. destruct (Hc d) as [J1 _ _ _ _ _ _]. apply J1; auto.
-                 --- eapply srv_ok_tvs; eauto.
-              ** simpl. eapply covb_tail; eauto.
+           ++ apply ioK_norm; auto; try (simpl; eapply covb_tail; eauto).
+              apply LSel; auto. intros _. apply asked_open.
+              ** intros d Hd. destruct (tv_fields _ _ (tvs_getc _ _ d Et)) as (_ & E2 & _ & _ & E5 & _).
+                 rewrite E2 in Hd. rewrite E5. destruct (Hc d) as [J1 _ _ _ _ _ _]. apply J1; auto.
+              ** eapply srv_ok_tvs; eauto.
       * (* IAccept *)
         unfold step in H. rewrite R, H0 in H. cbn [exec] in H.
-        destruct a as [| | | |[c|e]| | | | | | ]; try discriminate H.
+        destruct a as [| | | |ra| | | | | | |]; try discriminate H. destruct ra as [c|e].
         -- destruct (accepted (getc s c)) eqn:Eacc; [discriminate|]. injection H as <- <-.
            rewrite getth_setc. cbn [app].
            refine (io_finish g s _ _ c HS _ _ _ _ _).
@@ -833,40 +834,39 @@ Proof.
            ++ intro d. rewrite getth_setc. reflexivity.
            ++ rewrite getc_setc_same. destruct (Hc c) as [J1 J2 J3 J4 J5 J6 J7].
               destruct (J3 Eacc) as (E1 & E2 & E3 & E4).
-              constructor; simpl; auto; try (intro; congruence); try (intros; congruence).
-              rewrite E2. auto.
+              constructor; simpl; auto; try (intro; congruence); try (intros; congruence); try (rewrite E2; auto).
            ++ apply ioK_norm; auto.
               ** apply LA1; auto. rewrite getc_setc_same. destruct (Hc c) as [J1 J2 J3 J4 J5 J6 J7].
                  destruct (J3 Eacc) as (E1 & E2 & E3 & E4). repeat split; simpl; auto.
-              ** apply covb_app_cov; [eapply covb_head; eauto|eapply covb_tail; eauto].
+              ** apply (covb_app_cov [ISetOpts c; KAccTry c] rest); [eapply covb_head; eauto|eapply covb_tail; eauto].
         -- injection H as <- <-. cbn [app].
            refine (io_finish g s s _ A HS _ _ _ _ _); auto.
-           apply ioK_norm; auto. apply LT; auto. eapply covb_tail; eauto.
+           apply ioK_norm; auto; try (apply LT; auto); try (eapply covb_tail; eauto).
       * (* ITrigClose *)
         unfold step in H. rewrite R, H0 in H. cbn [exec] in H.
         destruct (trg_open s); injection H as <- <-; cbn [app]; rewrite ?getth_set_srv.
         -- refine (io_finish g s _ _ A HS _ _ _ _ _).
            ++ intros d _. rewrite getc_set_srv. split; auto.
-           ++ destruct Hs as [HL HT]. destruct (set_srv_fields s (lst_in_map s) false (lst_open s) false) as (-> & -> & -> & ->).
-              split; auto. intro; discriminate.
+           ++ destruct Hs as [HL HT]. unfold srv_ok. destruct (set_srv_fields s (lst_in_map s) false (lst_open s) false) as (-> & -> & -> & ->).
+              split; auto; intro; discriminate.
            ++ intro d. rewrite getth_set_srv. reflexivity.
            ++ rewrite getc_set_srv. auto.
-           ++ apply ioK_norm; auto. apply LT; auto. eapply covb_tail; eauto.
+           ++ apply ioK_norm; auto; try (apply LT; auto); try (eapply covb_tail; eauto).
         -- refine (io_finish g s s _ A HS _ _ _ _ _); auto.
-           apply ioK_norm; auto. apply LT; auto. eapply covb_tail; eauto.
+           apply ioK_norm; auto; try (apply LT; auto); try (eapply covb_tail; eauto).
       * (* ILstClose *)
         unfold step in H. rewrite R, H0 in H. cbn [exec] in H. injection H as <- <-. cbn [app]. rewrite ?getth_set_srv.
         refine (io_finish g s _ _ A HS _ _ _ _ _).
         -- intros d _. rewrite getc_set_srv. split; auto.
-        -- destruct Hs as [HL HT]. destruct (set_srv_fields s false (trg_in_map s) false (trg_open s)) as (-> & -> & -> & ->).
-           split; auto. intro; discriminate.
+        -- destruct Hs as [HL HT]. unfold srv_ok. destruct (set_srv_fields s false (trg_in_map s) false (trg_open s)) as (-> & -> & -> & ->).
+           split; auto; intro; discriminate.
         -- intro d. rewrite getth_set_srv. reflexivity.
         -- rewrite getc_set_srv. auto.
-        -- apply ioK_norm; auto. apply LT; auto. eapply covb_tail; eauto.
+        -- apply ioK_norm; auto; try (apply LT; auto); try (eapply covb_tail; eauto).
       * (* IHClose *)
         unfold step in H. rewrite R, H0 in H. cbn [exec hclose_body] in H. injection H as <- <-. cbn [app].
         refine (io_finish g s s _ A HS _ _ _ _ _); auto.
-        apply ioK_norm; auto. apply LC0; auto. simpl. eapply covb_tail; eauto.
+        apply ioK_norm; auto; try (apply LC0; auto); try (simpl; eapply covb_tail; eauto).
     + pose proof (io_tail_step g s i rest a HS R H0 Ht Hsp) as TS.
       unfold step in H. rewrite R, H0 in H.
       destruct (exec g IO i a s); [discriminate| |]; injection H as <- <-; exact TS.
@@ -880,7 +880,7 @@ Proof.
     + injection H as <- <-. cbn [app].
       refine (io_finish g s s _ A HS _ _ _ _ _); auto.
       * eapply chan_ok_quiet; eauto.
-      * apply ioK_norm; auto. apply LT; auto. simpl. eapply covb_tail; eauto.
+      * apply ioK_norm; auto; try (apply LT; auto); try (simpl; eapply covb_tail; eauto).
   - (* LC0: acquire outbuf_lock *)
     step_compute H R H0; tv_case HS H0 c Hc ltac:(apply LC1; auto).
   - (* LC1: close the buffers *)
@@ -991,9 +991,184 @@ Proof.
     + intro d. rewrite getth_setc. reflexivity.
     + rewrite getc_setc_same. constructor; simpl; auto; chan_fin.
     + apply ioK_norm; auto. apply LT; auto.
-  - (* LA1 *) admit.
-  - (* LA2 *) admit.
-  - (* LA3 *) admit.
-  - (* LA4 *) admit.
-  - (* LA5 *) admit.
-Admitted.
+  - (* LA1: set_socket_options *)
+    assert (HQ : forall d, quiet (getc s d)).
+    { eapply all_quiet; eauto; intros d rr E; rewrite H0 in E; discriminate. }
+    unfold step in H. rewrite R, H0 in H. cbn [exec] in H.
+    destruct a as [| | |ro| | | | | | | |]; try discriminate H. destruct ro as [e|]; injection H as <- <-; cbn [app].
+    + refine (io_finish g s s _ A HS _ _ _ _ _); auto.
+      * eapply chan_ok_quiet; eauto.
+      * apply ioK_raise.
+        -- discriminate.
+        -- eapply covb_head; eauto.
+        -- right. exists c, r. simpl. auto.
+        -- eapply covb_tail; eauto.
+    + refine (io_finish g s s _ A HS _ _ _ _ _); auto.
+      * eapply chan_ok_quiet; eauto.
+      * apply ioK_norm; auto; try (apply LA2; auto); try (eapply covb_tail; eauto).
+  - (* LA2: leave the try, construct the channel *)
+    assert (HQ : forall d, quiet (getc s d)).
+    { eapply all_quiet; eauto; intros d rr E; rewrite H0 in E; discriminate. }
+    unfold step in H. rewrite R, H0 in H. cbn [exec] in H. injection H as <- <-.
+    refine (io_finish g s s _ A HS _ _ _ _ _); auto.
+    * eapply chan_ok_quiet; eauto.
+    * apply ioK_norm; auto; try (apply LA3; auto).
+      apply (covb_app_cov [IInitGso c; IInitSbl c; IAddChan c] r); [eapply covb_head; eauto|eapply covb_tail; eauto].
+  - (* LA3: getsockopt(SO_SNDBUF) *)
+    assert (HQ : forall d, quiet (getc s d)).
+    { eapply all_quiet; eauto; intros d rr E; rewrite H0 in E; discriminate. }
+    unfold step in H. rewrite R, H0 in H. cbn [exec] in H.
+    destruct a as [| | |ro| | | | | | | |]; try discriminate H. destruct ro as [e|]; injection H as <- <-; cbn [app].
+    + refine (io_finish g s s _ A HS _ _ _ _ _); auto.
+      * eapply chan_ok_quiet; eauto.
+      * apply ioK_raise.
+        -- discriminate.
+        -- eapply covb_head; eauto.
+        -- left. simpl. apply tail_ok_drop. auto.
+        -- eapply covb_tail; eauto.
+    + refine (io_finish g s s _ A HS _ _ _ _ _); auto.
+      * eapply chan_ok_quiet; eauto.
+      * apply ioK_norm; auto; try (apply LA4; auto); try (eapply covb_tail; eauto).
+  - (* LA4: setblocking(0) *)
+    assert (HQ : forall d, quiet (getc s d)).
+    { eapply all_quiet; eauto; intros d rr E; rewrite H0 in E; discriminate. }
+    unfold step in H. rewrite R, H0 in H. cbn [exec] in H.
+    destruct a as [| | |ro| | | | | | | |]; try discriminate H. destruct ro as [e|]; injection H as <- <-; cbn [app].
+    + refine (io_finish g s s _ A HS _ _ _ _ _); auto.
+      * eapply chan_ok_quiet; eauto.
+      * apply ioK_raise.
+        -- discriminate.
+        -- eapply covb_head; eauto.
+        -- left. simpl. apply tail_ok_drop. auto.
+        -- eapply covb_tail; eauto.
+    + refine (io_finish g s s _ A HS _ _ _ _ _); auto.
+      * eapply chan_ok_quiet; eauto.
+      * apply ioK_norm; auto; try (apply LA5; auto); try (eapply covb_tail; eauto).
+  - (* LA5: add_channel *)
+    unfold step in H. rewrite R, H0 in H. cbn [exec] in H. injection H as <- <-. rewrite getth_setc. cbn [app].
+    destruct Hp as (P1 & P2 & P3 & P4 & P5).
+    refine (io_finish g s _ _ c HS _ _ _ _ _).
+    + others_tac HS H0.
+    + apply srv_ok_setc; auto.
+    + intro d. rewrite getth_setc. reflexivity.
+    + rewrite getc_setc_same. constructor; simpl; auto; try (intro; congruence); try (intros; congruence).
+      all: try (intros; lia).
+    + apply ioK_norm; auto; try (apply LT; auto); try (eapply covb_tail; eauto).
+Qed.
+
+
+(* labels and the close counter of a normal I/O step *)
+Lemma io_norm_labels : forall g s a s' l,
+  raising (getth s IO) = None -> step g s (IO, a) = Some (s', l) ->
+  labels_by IO l = true /\ forall c, nclose (getc s' c) = nclose (getc s c) + closes c l.
+Proof.
+  intros g s a s' l R H. unfold step in H. rewrite R in H.
+  destruct (stk (getth s IO)) as [|i rest]; [discriminate|].
+  pose proof (exec_gen g IO i a s) as EG.
+  assert (EC : forall c, match exec g IO i a s with Blocked => True
+                         | Norm s1 _ ls | Raise s1 _ ls => nclose (getc s1 c) = nclose (getc s c) + closes c ls end)
+    by (intro c; apply exec_closes).
+  destruct (exec g IO i a s) as [|s1 push ls|s1 x ls]; [discriminate| |]; injection H as <- <-.
+  - split; [tauto|]. intro c. rewrite getc_setth. apply (EC c).
+  - split; [tauto|]. intro c. rewrite getc_setth. apply (EC c).
+Qed.
+
+Lemma SInv_init : forall g, SInv g init.
+Proof.
+  intro g. split; [|split; [|split]].
+  - intros [|]; reflexivity.
+  - intros [|]; constructor; simpl; auto; try (intro; discriminate); try (intros; congruence).
+  - split; reflexivity.
+  - constructor; simpl; auto.
+    + intros _. apply LT. reflexivity.
+    + intros x E. discriminate.
+Qed.
+
+Lemma OInv_step : forall g s tr ch s' l, OInv g s tr -> step g s ch = Some (s', l) -> OInv g s' (tr ++ l).
+Proof.
+  intros g s tr [t a] s' l Inv H Hno.
+  assert (Hn1 : no_wcont tr \/ wc_close g = false).
+  { destruct Hno as [Hno|Hno]; auto. apply no_wcont_app in Hno. tauto. }
+  assert (Hn2 : has_wcont l = false \/ wc_close g = false).
+  { destruct Hno as [Hno|Hno]; auto. apply no_wcont_app in Hno. left. apply has_wcont_no. tauto. }
+  destruct (Inv Hn1) as (HS & Hio & Hnd & Hcl). clear Inv.
+  destruct t as [|c].
+  - destruct (raising (getth s IO)) as [x|] eqn:R.
+    + destruct (io_raise_step g s a s' l x HS R H) as (HS' & Hl & Hc).
+      destruct (labels_by_io_facts _ Hl) as [L1 L2].
+      split; [auto|split; [|split]].
+      * apply io_only_app; auto.
+      * apply no_died_app; auto.
+      * intro d. rewrite closes_app, Hcl, Hc. reflexivity.
+    + pose proof (io_norm_step g s a s' l HS R H) as HS'.
+      destruct (io_norm_labels g s a s' l R H) as (Hl & Hc).
+      destruct (labels_by_io_facts _ Hl) as [L1 L2].
+      split; [auto|split; [|split]].
+      * apply io_only_app; auto.
+      * apply no_died_app; auto.
+      * intro d. rewrite closes_app, Hcl, Hc. reflexivity.
+  - destruct (worker_step g s c a s' l HS H Hn2) as (HS' & Ht & Hf).
+    destruct (teardown_free_facts _ Hf) as (L1 & L2 & L3).
+    split; [auto|split; [|split]].
+    + apply io_only_app; auto.
+    + apply no_died_app; auto.
+    + intro d. rewrite closes_app, Hcl, L3, Nat.add_0_r.
+      destruct (tv_fields _ _ (tvs_getc _ _ d Ht)) as (_ & _ & _ & _ & _ & _ & E). auto.
+Qed.
+
+Lemma OInv_all : forall g sched, OInv g (ChanFault.run g sched) (ChanFault.trace g sched).
+Proof.
+  intros g sched. apply (inv_rule_tr g (OInv g)).
+  - intros _. split; [apply SInv_init|split; [|split]].
+    + intros l t [].
+    + intros x [].
+    + intros [|]; reflexivity.
+  - apply OInv_step.
+Qed.
+
+(* C13_once outside F18 *)
+Theorem once_partial : forall g sched,
+  no_wcont (ChanFault.trace g sched) ->
+  once_ok (ChanFault.run g sched) (ChanFault.trace g sched).
+Proof.
+  intros g sched Hn. destruct (OInv_all g sched (or_introl Hn)) as ((_ & Hc & _) & Hio & _ & Hcl).
+  split; auto. intro c. destruct (Hc c) as [J1 J2 J3 J4 J5 J6 J7]. split.
+  - rewrite Hcl. auto.
+  - exact J6.
+Qed.
+
+(* ... and with the repair of F18 (service() reaches _flush_some with do_close=False) the
+   statement holds for EVERY execution *)
+Theorem once_repaired : forall g sched,
+  wc_close g = false -> once_ok (ChanFault.run g sched) (ChanFault.trace g sched).
+Proof.
+  intros g sched Hn. destruct (OInv_all g sched (or_intror Hn)) as ((_ & Hc & _) & Hio & _ & Hcl).
+  split; auto. intro c. destruct (Hc c) as [J1 J2 J3 J4 J5 J6 J7]. split.
+  - rewrite Hcl. auto.
+  - exact J6.
+Qed.
+
+(* C13_loop outside F18 *)
+Theorem loop_partial : forall g sched,
+  no_wcont (ChanFault.trace g sched) -> loop_ok (ChanFault.trace g sched).
+Proof.
+  intros g sched Hn. destruct (OInv_all g sched (or_introl Hn)) as (_ & _ & Hnd & _).
+  intros x Hin. exfalso. eapply Hnd; eauto.
+Qed.
+
+Theorem loop_repaired : forall g sched,
+  wc_close g = false -> loop_ok (ChanFault.trace g sched).
+Proof.
+  intros g sched Hn. destruct (OInv_all g sched (or_intror Hn)) as (_ & _ & Hnd & _).
+  intros x Hin. exfalso. eapply Hnd; eauto.
+Qed.
+
+(* the state facts behind the theorems, for every reachable state of such an execution:
+   a descriptor that is polled is open, and a closed one is not polled *)
+Theorem polled_is_open : forall g sched c,
+  no_wcont (ChanFault.trace g sched) ->
+  in_map (getc (ChanFault.run g sched) c) = true -> sock (getc (ChanFault.run g sched) c) = SOpen.
+Proof.
+  intros g sched c Hn Hm. destruct (OInv_all g sched (or_introl Hn)) as ((_ & Hc & _) & _).
+  destruct (Hc c) as [J1 _ _ _ _ _ _]. apply J1. auto.
+Qed.
